@@ -403,13 +403,16 @@ func (p *Prog) geometricLoop(fn *ssa.Function, l *Loop) (loopClass, bool) {
 		}
 		// multiplicative
 		if phi, ok := bo.X.(*ssa.Phi); ok && l.Blocks[phi.Block()] && (bo.Op == token.GTR || bo.Op == token.GEQ) && exitsTrue {
-			if _, isC := constInt(bo.Y); isC {
+			if B, isC := constInt(bo.Y); isC {
 				good := true
 				var mulBlock *ssa.BasicBlock
+				var c0, factor int64 = 1, 2
 				for i, e := range phi.Edges {
 					if !l.Blocks[phi.Block().Preds[i]] {
 						if k, ok := constInt(e); !ok || k < 1 {
 							good = false
+						} else {
+							c0 = k
 						}
 						continue
 					}
@@ -421,11 +424,37 @@ func (p *Prog) geometricLoop(fn *ssa.Function, l *Loop) (loopClass, bool) {
 					k, isK := constInt(m.Y)
 					switch {
 					case m.Op == token.MUL && isK && k >= 2:
-					case m.Op == token.SHL && isK && k >= 1:
+						factor = k
+					case m.Op == token.SHL && isK && k >= 1 && k < 32:
+						factor = int64(1) << uint(k)
 					default:
 						good = false
 					}
 					mulBlock = m.Block()
+				}
+				// the multiplier must be able to pass the bound inside its own type: a byte that is doubled wraps from
+				// 0x80 to 0 and never exceeds 1<<7
+				if good {
+					if bt, isB := phi.Type().Underlying().(*types.Basic); isB && bt.Info()&types.IsInteger != 0 {
+						bits := uint(p.U.Sizes.Sizeof(bt) * 8)
+						var max uint64 = math.MaxUint64
+						if bt.Info()&types.IsUnsigned == 0 {
+							max = uint64(1)<<(bits-1) - 1
+						} else if bits < 64 {
+							max = uint64(1)<<bits - 1
+						}
+						v := uint64(c0)
+						for steps := 0; steps < 70; steps++ {
+							if int64(v) > B || (bo.Op == token.GEQ && int64(v) >= B) {
+								break
+							}
+							if v > max/uint64(factor) {
+								good = false // the next step leaves the type's range before the bound is passed
+								break
+							}
+							v *= uint64(factor)
+						}
+					}
 				}
 				if good && mulBlock != nil {
 					return loopClass{Kind: "geometric", Bound: "const", Why: "multiplier grows by a constant factor >= 2 and the loop is left once it exceeds a constant"}, true
